@@ -5,7 +5,7 @@ PROPERTY = 'C13'
 LEAN_PROPS = 'PlumpyModel.Props.C13'
 ASSUMPTIONS = pm_prop.ASSUMPTIONS
 TRUSTED = pm_prop.TRUSTED
-ALPHABET = ['pause', 'play', 'resume', 'resume-', 'resumeN']
+ALPHABET = ['pause', 'play', 'resume', 'resume-', 'resumeN', 'resumeE']
 MONITORS = ['c13', 'c06']      # c06: after resume(v), f(v) does run (the wait does not stay forever)
 
 
